@@ -63,10 +63,20 @@ theorem decodeLeaf_abs (tn s : String) (nid : Nat) (a : D) (h : decodeLeafD tn s
   · rename_i hb
     simp only [hb, if_false]
     split at h
-    · rename_i k hk
-      cases h
-      exact ⟨.leaf nid k s "", by simp [hk], rfl⟩
-    · cases h
+    · rename_i ht
+      simp only [ht, if_true]
+      split at h
+      · rename_i ns hp
+        cases h
+        exact ⟨.leaf nid .ts (printSpan ns) "", by simp [hp], rfl⟩
+      · cases h
+    · rename_i ht
+      simp only [ht, if_false]
+      split at h
+      · rename_i k hk
+        cases h
+        exact ⟨.leaf nid k s "", by simp [hk], rfl⟩
+      · cases h
 
 theorem cnvPVHash_cons (k v : D) (es : List (D × D)) :
     cnvPVHash ((k, v) :: es) =
